@@ -179,7 +179,7 @@ let () =
          let s = { in_bytes = stream; in_sched = []; in_err = false } in
          let o = read_request_head url cap (nat_of_int 8194) { fb_rd = O; fb_data = [] } s in
          let m = (match o with
-             | ROk _ -> "task 200"
+             | ROk (h, _, _) -> "task 200 m=" ^ tok_of_bytes h.h_method
              | RErr (e, _, _) -> (match status_of e with Status c -> "task " ^ string_of_int (int_of_n c) | Drop -> "task none")
              | RPanic -> "task panic" | ROutOfFuel -> "task outoffuel") in
          Printf.printf "%s%s | %s\n" echo m (ok_or (String.concat " " otoks = m) "connection-task-answer")
